@@ -44,7 +44,7 @@ var properties = map[string]Prop{
 		Parts:       []Part{{Harness: "sup", Args: []string{"-prop", "C09"}}},
 		Level:       "model_checking",
 		QuickBudget: 150, ThoroughBudget: 1500,
-		Rule:        "same scenario matrix as C08; oracle = at quiescence no survivor paused / half-stopped / holding mail, queued burst delivered in order to the right incarnation, every survivor processes a probe sent after quiescence, zombies inert + releasable, System.Stop still terminates everything, no spin, no stuck thread; distinct_nontrivial = distinct per-actor trace summaries per scenario",
+		Rule:        "same scenario matrix as C08 plus 12 scenarios in which the atomic / lock operations of package mailbox are switch points too (supervision command racing the mailbox going idle); oracle = at quiescence no survivor paused / half-stopped / holding mail, queued burst delivered in order to the right incarnation, every survivor processes a probe sent after quiescence, zombies inert + releasable, System.Stop still terminates everything, no spin, no stuck thread; distinct_nontrivial = distinct per-actor trace summaries per scenario",
 		Assumptions: append([]string{coarseAssumption}, schedAssumptions...),
 	},
 	"C06": {
@@ -114,7 +114,7 @@ var properties = map[string]Prop{
 		Parts:       []Part{{Harness: "c12"}},
 		Level:       "exploration",
 		QuickBudget: 120, ThoroughBudget: 600,
-		Rule:        "for every name in the wire registry (the harness fails if a registered name has no generator): the cross product of small field domains (strings {empty, 1 char, 300 bytes, non-ASCII}, integers {0, 1, -1, min, max}, times {epoch, now, max UnixNano}, maps {nil, empty, 2 entries}, nested messages {OnLaunch, user-registered type, user-codec type, nested PipeResult, Ping}, errors {nil, registered, re-worded, foreign, wrapped}, references {nil, local, remote, future}, cluster views / node states with extreme counters) is written and read back (a) through the registered writer/reader with the reader position checked, (b) nested through WriteMessage/ReadMessage, (c) inside an envelope for system flag x 4 senders x 3 receivers; plus every supported primitive / slice / array / struct shape with boundary values in value and pointer form; plus encode-encode-decode and decode-after-failure sequences; a case is one (type, value, route) triple, all distinct",
+		Rule:        "for every name in the wire registry (the harness fails if a registered name has no generator): the cross product of small field domains (strings {empty, 1 char, 300 bytes, non-ASCII}, integers {0, 1, -1, min, max}, times {epoch, now, max UnixNano}, maps {nil, empty, 2 entries}, nested messages {OnLaunch, user-registered type, user-codec type, nested PipeResult, Ping}, errors {nil, registered, re-worded, foreign, wrapped}, references {nil, local, remote, future}, cluster views / node states with extreme counters) is written and read back (a) through the registered writer/reader with the reader position checked, (b) nested through WriteMessage/ReadMessage, (c) inside an envelope for system flag x 4 senders x 3 receivers; plus every supported primitive / slice / array / struct shape with boundary values in value and pointer form; plus encode-encode-decode, decode-after-failed-decode and encode-after-failed-encode sequences (pooled readers / writers); a case is one (type, value, route) triple, all distinct",
 		Assumptions: []string{"equality is judged on a canonical projection (nil == empty containers, time by UnixNano, errors by code+message, references by address+path)", "field domains are the small sets listed; other values are not covered"},
 	},
 	"C13": {
@@ -128,35 +128,35 @@ var properties = map[string]Prop{
 		Parts:       []Part{{Harness: "c11"}},
 		Level:       "model_checking",
 		QuickBudget: 250, ThoroughBudget: 2400,
-		Rule:        "two real Systems with remoting enabled on an in-memory network: bursts of 1-4 numbered messages with payload {0, 1, 200, 4000, 4090, 4096 (bufio boundary), 65536} bytes, two concurrent senders, both directions at once, Ask/Reply, and a 12 s idle gap (beyond the handshake deadlines) between bursts; reads return everything available (maximal coalescing, default) or one of {1, 3, 4, 5, half, all-but-one} bytes as environment choices at every Read (handshake included); every schedule up to the delay/deviation bound with switch points at messages, sends, network operations and mailbox elections; oracle: exactly once, intact, per-sender order, Sender() == original sender, every Ask gets its own reply, no decode-failed event; distinct_nontrivial = distinct delivery logs per scenario",
+		Rule:        "two real Systems with remoting enabled on an in-memory network: bursts of 1-4 numbered messages with payload {0, 1, 200, 4000, 4090, 4096 (bufio boundary), 65536} bytes, two concurrent senders, two senders contacting the remote address for the first time at once with the lock operations of package remoting as switch points (delay bound 2), both directions at once, Ask/Reply, and a 12 s idle gap (beyond the handshake deadlines) between bursts; reads return everything available (maximal coalescing, default) or one of {1, 3, 4, 5, half, all-but-one} bytes as environment choices at every Read (handshake included); every schedule up to the delay/deviation bound with switch points at messages, sends, network operations and mailbox elections; oracle: exactly once, intact, per-sender order, Sender() == original sender, every Ask gets its own reply, no decode-failed event; distinct_nontrivial = distinct delivery logs per scenario",
 		Assumptions: append([]string{"the network is the in-memory vnet shim (net.Dial / ListenTCP / Conn with virtual deadlines); TLS listeners are not modelled", coarseAssumption}, schedAssumptions...),
 	},
 	"C14": {
 		Parts:       []Part{{Harness: "c14"}},
 		Level:       "fault_enumeration",
 		QuickBudget: 250, ThoroughBudget: 2400,
-		Rule:        "two real Systems on the in-memory network, sender A -> receiver B, retry limit in {0,1,3}: the first connection is cut after byte j of its client->server stream for every j in 0..280 (handshake + three frames; quick: every j for limit 1, every third j otherwise), two-fault runs cutting the first and the second connection on a grid of offsets, the first k in 1..5 dials refused, the peer stopped and restarted (with and without a send while it is down), and a raw client injecting between two valid frames an undecodable body / an over-limit length followed by a forged frame / an unknown message name / a corrupted envelope; each scenario explored over schedules up to the deviation bound; a case is one (fault, position, retry limit) scenario, non-trivial when a fault actually fired",
+		Rule:        "two real Systems on the in-memory network, sender A -> receiver B, retry limit in {0,1,3}: the first connection is cut after byte j of its client->server stream for every j in 0..280 (handshake + three frames; quick: every j for limit 1, every third j otherwise), two-fault runs cutting the first and the second connection on a grid of offsets, the first k in 1..5 dials refused (exact retry budget per message), two senders contacting the peer for the first time at once with 0/1 refused dials and fine granularity inside package remoting, the peer stopped and restarted (with and without a send while it is down), and a raw client injecting between two valid frames an undecodable body / an over-limit length followed by a forged frame / an unknown message name / a corrupted envelope; each scenario explored over schedules up to the deviation bound; a case is one (fault, position, retry limit) scenario, non-trivial when a fault actually fired",
 		Assumptions: append([]string{"the network is the in-memory vnet shim: a cut makes the write that crosses the offset fail after delivering the prefix", coarseAssumption}, schedAssumptions...),
 	},
 	"C15": {
 		Parts:       []Part{{Harness: "c15"}},
 		Level:       "model_checking",
 		QuickBudget: 250, ThoroughBudget: 2400,
-		Rule:        "12 operations taking an ActorRef {Tell, Ask+Reply, Kill, poison Kill, Watch then target dies, Watch+Unwatch then target dies, Ping, PipeTo success, PipeTo failure (timeout), PipeTo with a forwarder on the other system, Scheduler.Once, Scheduler.Loop} x target {local, on another System over the in-memory network} x {user Codec with a message type outside the registry, no codec with a registered type}; each of the 48 scenarios over all schedules up to the delay bound with switch points at messages, sends and network operations; oracle: the same expected observable effect for the local and the remote variant (delivery, reply, termination + OnKill.Killer, OnKilled naming the target with its address, Pong, PipeResult at the forwarder, scheduled deliveries) and no decode/send failure event; distinct_nontrivial = distinct effect vectors per scenario",
+		Rule:        "12 operations taking an ActorRef {Tell, Ask+Reply, Kill, poison Kill, Watch then target dies, Watch+Unwatch then target dies, Ping, PipeTo success, PipeTo failure (timeout), PipeTo with a forwarder on the other system, Scheduler.Once, Scheduler.Loop} x target {local, on another System over the in-memory network} x {user Codec with a message type outside the registry, no codec with a registered type}; plus two watchers with the same path on the two systems (watch / one unwatches) and eight operations repeated right after a message legitimately rejected by its writer; each of the 70 scenarios over all schedules up to the delay bound with switch points at messages, sends and network operations; oracle: the same expected observable effect for the local and the remote variant (delivery, reply, termination + OnKill.Killer, OnKilled naming the target with its address, Pong, PipeResult at the forwarder, scheduled deliveries) and no decode/send failure event; distinct_nontrivial = distinct effect vectors per scenario",
 		Assumptions: append([]string{"event-stream subscriptions are local by design and not part of the matrix", coarseAssumption}, schedAssumptions...),
 	},
 	"C18": {
 		Parts:       []Part{{Harness: "c18"}},
 		Level:       "model_checking",
 		QuickBudget: 250, ThoroughBudget: 2400,
-		Rule:        "n = 2-3 (4 thorough) real Systems with clustering enabled over the in-memory network on virtual time, real gossip / join / failure-detection code and wire codec: seed layouts {one seed, two seeds}, start offsets {0, 0.3 s, 0.7 s} in several orders, FailureDetectionTimeout {4 s, default 40 s, off}, SuspectConfirmDuration {0, 2 s}; fault phase: crash (isolation) of a non-seed node, restart with the same / a fresh NodeID, partition and heal of a pair; healing phase of max(20 gossip rounds, 5 x timeout) of virtual time; oracle at the horizon: equal member sets and incarnations, same computed leader, exactly one self-declared leader, members == running nodes, no membership/leader event in the last third of the healing phase; executions are deterministic runs of the whole protocol stack (default fair schedule per scenario; deviations in thorough); distinct_nontrivial = distinct final view vectors",
+		Rule:        "n = 2-3 (4 thorough) real Systems with clustering enabled over the in-memory network on virtual time, real gossip / join / failure-detection code and wire codec: seed layouts {one seed, two seeds}, start offsets {0, 0.3 s, 0.7 s} in several orders, FailureDetectionTimeout {4 s, default 40 s, off}, SuspectConfirmDuration {0, 2 s}; a late self-seeded island; fault phase: crash (isolation) of a non-seed node, restart with the same NodeID on the same / on a new address, restart with a fresh NodeID, partition and heal of a pair, each at three instants; healing phase of max(20 gossip rounds, 5 x timeout) of virtual time; oracle at the horizon: no view lists a node that is not running (dead-member-removed), and among the running nodes: equal member sets and incarnations, same computed leader, exactly one self-declared leader, every running node listed, no membership/leader event in the last third of the healing phase; executions are deterministic runs of the whole protocol stack (default fair schedule per scenario; deviations in thorough); distinct_nontrivial = distinct final view vectors",
 		Assumptions: append([]string{"reconnect limit 1 with 100-200 ms back-off (instead of 10 attempts up to 10 s) so that Tell to a dead node does not stall the cluster actor for minutes of virtual time", "cluster sizes 5-7 and message loss inside a TCP stream are not covered", coarseAssumption}, schedAssumptions...),
 	},
 	"C05": {
 		Parts:       []Part{{Harness: "c05"}},
 		Level:       "model_checking",
 		QuickBudget: 150, ThoroughBudget: 1500,
-		Rule:        "delay-bounded DFS over message-level schedules of the real actor.System for each scenario of the matrix failure-site x cause x decision x provider (+Become, kills, prelaunch failures, repeated restarts, failing hooks); oracle = per-incarnation trace grammar over everything behaviours saw; distinct_nontrivial = distinct per-actor trace summaries per scenario",
+		Rule:        "delay-bounded DFS over message-level schedules of the real actor.System for each scenario of the matrix failure-site x cause x decision x provider (+Become, kills, prelaunch failures, repeated restarts, failing hooks, slow decision maker overtaken by a kill, watcher dead before the watched actor); oracle = per-incarnation trace grammar over everything behaviours saw; distinct_nontrivial = distinct per-actor trace summaries per scenario",
 		Assumptions: append([]string{coarseAssumption}, schedAssumptions...),
 	},
 	"C01": {
